@@ -964,6 +964,8 @@ class Path:
         if op is ast.Add and isinstance(a, list) and type(b) is seqs.SymSeq and b.kind == 'list':
             from . import derivedseq
             return derivedseq.PrefixSeq(list(a), b)
+        if op is ast.Add and (isinstance(a, seqs.SymSeq) or isinstance(b, seqs.SymSeq)):
+            raise Unsupported(f'concatenation {a!r} + {b!r} of symbolic-length sequences')
         conc = not is_z3(a) and not is_z3(b)
         if conc and not isinstance(a, SymFloat) and not isinstance(b, SymFloat):
             return self.binop_concrete(op, a, b)
